@@ -1,6 +1,7 @@
 import StepModel.ExpressDiagLemmas
 import StepModel.ExpressResolveLemmas
 import StepModel.ExpressWF
+import StepModel.ExpressLookup
 import StepModel.Props.C20
 /-!
 # C04 — all EXPRESS tools give the same, correct verdict on a schema
@@ -333,6 +334,28 @@ theorem C04_overloaded_attr_iff (path : String) (s : Schema) (fuel : Nat) (e : E
 theorem C04_self_attr_lookup_sound_partial (s : Schema) (an : String) (fuel : Nat) (en : String)
     (h : namedAttr s an fuel en = some true) : ∃ x, ReachRefl (superGraph s) en x ∧ ownsAttr s an x = true :=
   namedAttr_sound s an fuel en h
+
+/-- **the look-up behind `SELF.a` / unqualified UNIQUE references, whenever it answers**: if `ENTITYget_named_attribute` returns within
+    the fuel (`namedAttr … = some b`; `none` = the C recursion is deeper than the fuel, i.e. runs through cyclic supertypes), then it says
+    "found" exactly when the entity or an entity reachable from it through `SUBTYPE OF` declares the attribute -/
+theorem C04_self_attr_lookup_iff (s : Schema) (an : String) (fuel : Nat) (en : String) (b : Bool)
+    (h : namedAttr s an fuel en = some b) :
+    b = true ↔ ∃ x, ReachRefl (superGraph s) en x ∧ ownsAttr s an x = true :=
+  namedAttr_answer_iff s an fuel en b h
+
+/-- hence `AttrVisible` (the condition of `SELF.a`, UNIQUE and INVERSE references in `FileWF`) is reachability whenever the look-up
+    terminates: independent of the order of the supertype lists and of the fuel -/
+theorem C04_attr_visible_iff_reach (s : Schema) (fuel : Nat) (e : Entity) (an : String)
+    (hterm : namedAttr s an fuel e.name ≠ none) :
+    AttrVisible s fuel e an ↔ ∃ x, ReachRefl (superGraph s) e.name x ∧ ownsAttr s an x = true := by
+  unfold AttrVisible
+  cases h : namedAttr s an fuel e.name with
+  | none => exact absurd h hterm
+  | some b =>
+    have := namedAttr_answer_iff s an fuel e.name b h
+    cases b with
+    | true => simpa using this
+    | false => simpa using this
 
 /-- **overloaded attribute, stated without the look-up function**: `ENTITYresolve_expressions` reports OVERLOADED_ATTR for `e` ⇔ some new
     (not redeclared) attribute of `e` has a second declaration in a direct supertype or in an entity reachable from one through
